@@ -187,11 +187,12 @@ static void run_case(seqx::Runner &R, const Cfg &cfg, const std::vector<int> &se
         // fixed storage: a subscriber created again in the same place has the same address as its predecessor (like a local
         // variable of a function called repeatedly); the publisher keys its registration table by that address
         struct SubStore {
-            std::optional<cocls::subscriber<int>> s[2];
+            std::optional<cocls::subscriber<int>> s[2][2];  // two places per subscriber: a kick relocates it to the other one
         };
         std::unique_ptr<SubStore> store(new SubStore);
         bool leak_store = false;
-        auto &sub = store->s;
+        int cur[2] = {0, 0};
+#define SUB(k) (store->s[k][cur[k]])
         auto stype = cfg.mode == 0 ? cocls::subscribtion_type::all_values : cfg.mode == 1 ? cocls::subscribtion_type::skip_if_behind : cocls::subscribtion_type::skip_to_recent;
         bool ok = true;
         size_t step = 0;
@@ -283,17 +284,17 @@ static void run_case(seqx::Runner &R, const Cfg &cfg, const std::vector<int> &se
                     break;
                 }
                 case SUBR:
-                    sub[slot].emplace(*pub, stype);
+                    SUB(slot).emplace(*pub, stype);
                     ms[slot] = MSub{true, false, false, false, n};
                     break;
                 case SUBAT: {
                     long p = std::max<long>(0, n - cfg.minq);
-                    sub[slot].emplace(*pub, (std::size_t)p, stype);
+                    SUB(slot).emplace(*pub, (std::size_t)p, stype);
                     ms[slot] = MSub{true, false, false, false, p};
                     break;
                 }
                 case COPY:
-                    sub[1].emplace(*sub[0]);
+                    SUB(1).emplace(*SUB(0));
                     ms[1] = MSub{true, false, false, false, ms[0].c};
                     break;
                 case CLOSE:
@@ -306,7 +307,7 @@ static void run_case(seqx::Runner &R, const Cfg &cfg, const std::vector<int> &se
                     int k = op - AWAIT0;
                     res[k] = Res{};
                     bool expect_park = !ms[k].kicked && !closed && ms[k].c == n;
-                    await_next(*sub[k], res[k]).detach();
+                    await_next(*SUB(k), res[k]).detach();
                     if (!res[k].done) {
                         if (!expect_park) {
                             R.fail("pub/suspended-with-data-available", "step %zu: subscriber %d suspended although position %ld < %ld published (closed=%d kicked=%d)", step, k,
@@ -321,9 +322,9 @@ static void run_case(seqx::Runner &R, const Cfg &cfg, const std::vector<int> &se
                 case READY0:
                 case READY1: {
                     int k = op - READY0;
-                    bool b = sub[k]->next_ready();
+                    bool b = SUB(k)->next_ready();
                     if (b)
-                        deliver(k, true, sub[k]->value(), "next_ready()");
+                        deliver(k, true, SUB(k)->value(), "next_ready()");
                     else {
                         MSub &x = ms[k];
                         bool terminal = x.kicked || (closed && x.c == n) || (cfg.mode == 0 && n - x.c > cfg.maxq);
@@ -340,17 +341,25 @@ static void run_case(seqx::Runner &R, const Cfg &cfg, const std::vector<int> &se
                 case KICK1: {
                     int k = op - KICK0;
                     ms[k].kicked = true;
+                    if (!ms[k].parked) {
+                        // the subscriber object is relocated first, as a container that grows would do it (move-construct at the
+                        // new place, destroy the old one), and is kicked - and used from then on - at its new address
+                        int other = cur[k] ^ 1;
+                        store->s[k][other].emplace(std::move(*SUB(k)));
+                        SUB(k).reset();
+                        cur[k] = other;
+                    }
                     if (k == 0)
-                        pub->kick(&*sub[0]);
+                        pub->kick(&*SUB(0));
                     else
-                        sub[1]->kick_me();
+                        SUB(1)->kick_me();
                     check_woken("kick", k);
                     break;
                 }
                 case LEAVE0:
                 case LEAVE1: {
                     int k = op - LEAVE0;
-                    sub[k].reset();
+                    SUB(k).reset();
                     ms[k] = MSub{};
                     break;
                 }
@@ -376,8 +385,8 @@ static void run_case(seqx::Runner &R, const Cfg &cfg, const std::vector<int> &se
         if (leak_store)
             (void)store.release();
         else {
-            sub[0].reset();
-            sub[1].reset();
+            SUB(0).reset();
+            SUB(1).reset();
         }
         R.outcome(seqx::mix((uint64_t)n, (uint64_t)ms[0].c * 8 + (uint64_t)ms[1].c));
     }
